@@ -7,6 +7,7 @@ import (
 	"errors"
 	"flag"
 	"fmt"
+	"os"
 	"sort"
 	"strings"
 	"time"
@@ -563,7 +564,26 @@ func main() {
 			}
 		}
 	}
+	// S part
+	specs := buildPairSpecs(r, cfgs, sum, ms)
+	hx.WriteJSON(specFile, specs)
+	hx.SetWorkerMode("s")
+	scens := pairScenariosFromSpecs(cfgs, specs, pairBound(r))
+	ss := hx.ExploreAll(r, scens, false, 0)
+	for k := range ss.Found {
+		if !strings.HasPrefix(k, "C03|") && !strings.HasPrefix(k, "panic|") && !strings.HasPrefix(k, "engine|") {
+			delete(ss.Found, k)
+		}
+	}
+	viol = append(viol, hx.ConfirmViolations(ss, scens)...)
+	_ = os.Remove(specFile)
 	cov := sum.Coverage()
+	sc := ss.Coverage()
+	cov["concurrent_stimulus_scenarios"] = len(scens)
+	cov["concurrent_stimulus_executions"] = sc["executions"]
+	cov["concurrent_stimulus_completed_bound"] = sc["completed_deviation_bound"]
+	cov["concurrent_stimulus_outcomes"] = sc["outcomes"]
+	cov["exhaustive"] = cov["exhaustive"].(bool) && sc["exhaustive"].(bool)
 	cov["configurations"] = len(ms)
 	cov["strongly_connected_components"] = stats["sccs"]
 	cov["bottom_component_states"] = stats["bottom_states"]
@@ -584,6 +604,193 @@ func main() {
 	_ = time.Second
 }
 
-func isSWorker() bool { return false }
+func isSWorker() bool { return hx.WorkerMode() == "s" }
 
-func pairScenarios(r *hx.Run, g map[string]*hx.Graph) []hx.Scenario { return nil }
+// ---- S part: two stimuli hit one endpoint concurrently, from a representative of every class of state ----
+
+type pairSpec struct {
+	Model   int      `json:"m"`
+	History []string `json:"h"`
+	A, B    string   // stimuli
+}
+
+const specFile = "/var/tmp/verif-c03-pairs.json"
+
+func stimuli(w *world) []string {
+	var out []string
+	if w.deliverable(w.cli) {
+		out = append(out, "D:c2s")
+	}
+	if w.deliverable(w.srv) {
+		out = append(out, "D:s2c")
+	}
+	ts := w.timers()
+	for k, t := range ts {
+		if k < 2 && !t.stale {
+			out = append(out, fmt.Sprintf("T%d", k))
+		}
+	}
+	if w.srv.state() == model.SmeHelloStatePendingListen {
+		out = append(out, "APPROVE", "CANCEL")
+	}
+	return out
+}
+
+func (w *world) fire(ev string) {
+	switch {
+	case ev == "D:c2s" || ev == "D:s2c":
+		from := w.cli
+		if ev == "D:s2c" {
+			from = w.srv
+		}
+		if len(from.out) == 0 {
+			return
+		}
+		to := w.peerOf(from)
+		f := from.out[0]
+		from.out = from.out[1:]
+		switch {
+		case to.W.Closed:
+		case f.close:
+			to.W.Closed = true
+			to.W.ClosedErr = errors.New("websocket: close 4001")
+			to.told = true
+			simrt.Go("pump-"+to.name, func() { to.C.ReportConnectionError(errors.New("websocket: close 4001")) })
+		default:
+			to.inbox = append(to.inbox, f.data)
+		}
+	case ev == "APPROVE":
+		w.approved = true
+		if w.srv.state() == model.SmeHelloStatePendingListen {
+			w.approvedHow = "pending"
+		} else {
+			w.approvedHow = "late"
+		}
+		w.srv.P.Paired = true
+		w.srv.C.ApprovePendingHandshake()
+	case ev == "CANCEL":
+		w.cancelled = true
+		w.srv.C.AbortPendingHandshake()
+	case strings.HasPrefix(ev, "T"):
+		var k int
+		fmt.Sscanf(ev[1:], "%d", &k)
+		ts := w.timers()
+		if k < len(ts) {
+			simrt.FireTimer(ts[k].ID)
+		}
+	}
+}
+
+func pairBody(c cfg, hist []string, a, b string) func() {
+	return func() {
+		w := newWorld(c)
+		w.srv.C.Run()
+		w.cli.C.Run()
+		simrt.Quiesce()
+		for _, ev := range hist {
+			w.apply(ev)
+		}
+		simrt.Mark()
+		// the timer ids have to be resolved before either stimulus runs
+		ta, tb := a, b
+		simrt.Go("stim-a", func() { w.fire(ta) })
+		simrt.Go("stim-b", func() { w.fire(tb) })
+		simrt.Quiesce()
+		simrt.Unmark()
+		w.safety(a + "||" + b)
+		// settle under the default schedule: deliver everything, let timers expire, a patient user
+		for round := 0; round < 60; round++ {
+			progressed := false
+			for _, e := range []*end{w.cli, w.srv} {
+				for w.deliverable(e) {
+					if e == w.cli {
+						w.apply("D:c2s")
+					} else {
+						w.apply("D:s2c")
+					}
+					progressed = true
+				}
+			}
+			if ts := w.timers(); len(ts) > 0 && !progressed {
+				w.apply("T0")
+				progressed = true
+			}
+			w.safety("settle")
+			cl := w.class()
+			if cl == "both-complete" || cl == "both-ended" {
+				break
+			}
+			if !progressed {
+				break
+			}
+		}
+		cl := w.class()
+		resolved := cl == "both-complete" || cl == "both-ended"
+		waitingForUser := (c.trust == "approve" || c.trust == "cancel" || c.trust == "never") && !w.approved && !w.cancelled && c.srvAllow
+		if !resolved && !waitingForUser {
+			simrt.Fail("C03|pair-unresolved|"+cl, "after %s and %s hit the endpoints concurrently (history %v) the two sides never agree: %s", a, b, hist, cl)
+		}
+		simrt.Outcome(cl)
+	}
+}
+
+func pairScenariosFromSpecs(cfgs []cfg, specs []pairSpec, pb int) []hx.Scenario {
+	var out []hx.Scenario
+	focus := []string{"stim-", "reader-", "setHandshakeTimer", "pump-", "CloseConnection", "handleState"}
+	for i, sp := range specs {
+		c := cfgs[sp.Model]
+		out = append(out, hx.Scenario{Name: fmt.Sprintf("c03:pair:%d:%s:%s||%s@%s", i, c.name(), sp.A, sp.B, strings.Join(sp.History, ",")),
+			Body: pairBody(c, sp.History, sp.A, sp.B), Bounds: simrt.B(pb, 0, 0),
+			Cfg: simrt.Config{MaxSteps: 200000, BranchAfterMark: true, BranchOnly: focus}})
+	}
+	return out
+}
+
+func pairBound(r *hx.Run) int {
+	if r.Thorough() {
+		return 2
+	}
+	return 1
+}
+
+func pairScenarios(r *hx.Run, g map[string]*hx.Graph) []hx.Scenario {
+	var specs []pairSpec
+	hx.ReadJSON(specFile, &specs)
+	return pairScenariosFromSpecs(configs(r), specs, pairBound(r))
+}
+
+// buildPairSpecs picks, for every class of state of every timely configuration, the shortest history and
+// all unordered pairs of stimuli enabled there that hit the same endpoint or race across the link.
+func buildPairSpecs(r *hx.Run, cfgs []cfg, sum *hx.GSummary, ms []hx.GModel) []pairSpec {
+	var specs []pairSpec
+	var keys []string
+	for rk := range sum.Reps {
+		keys = append(keys, rk)
+	}
+	sort.Strings(keys)
+	for _, rk := range keys {
+		mi := sum.RepModel[rk]
+		c := cfgs[mi]
+		if c.arbitrary || c.ids != "none" || (!r.Thorough() && !c.cliAllow) {
+			continue
+		}
+		hist := sum.Reps[rk]
+		var st []string
+		simrt.Run(simrt.Config{}, nil, func() {
+			w := newWorld(c)
+			w.srv.C.Run()
+			w.cli.C.Run()
+			simrt.Quiesce()
+			for _, ev := range hist {
+				w.apply(ev)
+			}
+			st = stimuli(w)
+		})
+		for i := 0; i < len(st); i++ {
+			for j := i + 1; j < len(st); j++ {
+				specs = append(specs, pairSpec{Model: mi, History: hist, A: st[i], B: st[j]})
+			}
+		}
+	}
+	return specs
+}
